@@ -25,9 +25,20 @@ pub fn backends_strategy(with_rln: bool) -> BoxedStrategy<Vec<BackendKind>> {
 
 /// run a history on every backend of the case; returns the failure (if any)
 pub fn run_history(ctx: &Ctx, case: &TreeCase, focus: Focus, batch_panic_is_violation: bool, o: &mut Outcome) {
+    run_history_inner(ctx, case, focus, batch_panic_is_violation, o);
+    observe_on_helper(false);
+}
+
+fn run_history_inner(ctx: &Ctx, case: &TreeCase, focus: Focus, batch_panic_is_violation: bool, o: &mut Outcome) {
     // the RLN byte API reads its arguments / writes its results through readers and writers that move
     // 1, 7 or 33 bytes per call, or everything at once (chosen from the case content)
     crate::gens::set_io_style((case_hash(case) % 4) as u8);
+    // a quarter of the histories: the state is read back by a second long-lived thread of the caller
+    let second_thread = (case_hash(case) / 4) % 4 == 1;
+    observe_on_helper(second_thread);
+    if second_thread {
+        o.label("state-read-by-a-second-thread");
+    }
     let only = std::env::var("VERIF_DEBUG_BACKENDS").ok();
     for kind in &case.backends {
         if let Some(f) = &only {
